@@ -339,7 +339,7 @@ class Engine:
             return True
         if r == "sat":
             self.stats["violated"] += 1
-            if len(self.violations) < 40:
+            if len(self.violations) < 6:
                 self.violations.append(dict(label=label, info=info, witness=self.witness([neg] + excl)))
             return False
         self.stats["unknown"] += 1
@@ -367,7 +367,7 @@ class Engine:
         """A concrete (path-level) violation: the path itself is the counterexample."""
         self.stats["obligations"] += 1
         self.stats["violated"] += 1
-        if len(self.violations) < 40:
+        if len(self.violations) < 6:
             self.violations.append(dict(label=label, info=info, witness=self.witness([])))
         return False
 
@@ -590,6 +590,9 @@ class Engine:
                 self.samples.append(self.sample(outcome))
             if self.stats["paths"] >= max_paths:
                 raise RuntimeError("max_paths exceeded")
+            if self.stats["violated"] >= 60:
+                self.stats["stopped_early"] = 1   # enough counterexamples: the shard stops (the verdict is already 'violated')
+                break
 
     def sample(self, outcome):
         pcs = [str(c)[:160] for c in self.pc[-6:]]
